@@ -18,4 +18,4 @@ Extraction "model.ml"
   unfill refill non_empty_lines
   indent dedent
   wrap_columns custom3
-  wf_strip.
+  wf_strip greedy_b take_ws has_nonws is_prefix_char split_terminator_lf trim_end ends_with join spaces.
